@@ -236,9 +236,9 @@ Proof. intros c []. Qed.
 Lemma agree_on_incl l1 l2 g g' : incl l1 l2 -> agree_on l2 g g' -> agree_on l1 g g'.
 Proof. intros Hi H c Hc. apply H, Hi, Hc. Qed.
 
-Lemma apply_unary_none op l a : opk_unary op = false -> apply_unary op l a = None.
+Lemma apply_unary_not_unary op l a : opk_unary op = false -> apply_unary op l a = None.
 Proof. destruct op; cbn; intros; congruence. Qed.
-Lemma apply_unary_some op l a : opk_unary op = true -> exists b, apply_unary op l a = Some b.
+Lemma apply_unary_is_unary op l a : opk_unary op = true -> exists b, apply_unary op l a = Some b.
 Proof. destruct op; cbn; intros; try discriminate; eauto. Qed.
 
 Section Agree.
@@ -264,9 +264,9 @@ Section Agree.
   Proof.
     intros H. unfold filter_one. apply bind_ext. intros lc. cbv zeta.
     destruct (opk_unary op) eqn:Eu.
-    - destruct (apply_unary_some op (fst lc) (match active (snd lc) with Some _ => true | None => false end) Eu) as (b & ->).
+    - destruct (apply_unary_is_unary op (fst lc) (match active (snd lc) with Some _ => true | None => false end) Eu) as (b & ->).
       reflexivity.
-    - rewrite (apply_unary_none _ _ _ Eu). unfold tag_calls in H. rewrite Eu in H.
+    - rewrite (apply_unary_not_unary _ _ _ Eu). unfold tag_calls in H. rewrite Eu in H.
       destruct arg as [[[cf|ff]|x t]|]; try reflexivity.
       destruct (N.eqb (cf_vid cf) cur).
       + apply agree_on_cons in H. destruct H as (H & _). rewrite (resolve_prop_agree _ _ _ H). reflexivity.
@@ -482,3 +482,250 @@ Section AgreeFold.
     intros cs. apply mapM_ext_in. intros cx _. now apply construct_output_one_agree.
   Qed.
 End AgreeFold.
+
+(* ================= the dynamic clause, fold-free queries =================
+   "every non-null active vertex passed to the adapter is an instance of the named type".
+   Proved at the level of the specification (Sem.v) for edge steps — vertices only come from
+   g_starts / g_nbrs at the declared destination, narrowed by coercions — and transported to the
+   contexts of Exec.v through the C01 simulation, at every stage boundary. *)
+Lemma lookup_N_in {A} k (l : list (N * A)) x : lookup_N k l = Some x -> In (k, x) l.
+Proof.
+  induction l as [|[k' a] l IH]; cbn; [discriminate|]. destruct (N.eqb_spec k k') as [->|_].
+  - intros [= ->]. now left.
+  - intros H. right. auto.
+Qed.
+
+Lemma edges_only_app l1 l2 : edges_only (l1 ++ l2) = true -> edges_only l1 = true.
+Proof.
+  induction l1 as [|[e|h sub] r IH]; cbn [app edges_only]; [reflexivity| |discriminate].
+  intros H. apply andb_prop in H. destruct H as (H1 & H2). rewrite H1. cbn. auto.
+Qed.
+
+Lemma typed_steps_app S vs l1 l2 : typed_steps S vs (l1 ++ l2) = true -> typed_steps S vs l1 = true.
+Proof.
+  induction l1 as [|[e|h sub] r IH]; cbn [app typed_steps]; [reflexivity| |];
+    intros H; apply andb_prop in H; destruct H as (H1 & H2); rewrite H1; cbn; auto.
+Qed.
+
+Lemma find_decl_in name l d : find_decl name l = Some d -> In d l /\ ed_name d = name.
+Proof.
+  induction l as [|x l IH]; cbn; [discriminate|]. destruct (String.eqb_spec name (ed_name x)) as [->|_].
+  - intros [= ->]. split; [now left|reflexivity].
+  - intros H. destruct (IH H). split; [now right|assumption].
+Qed.
+
+Section Dynamic.
+  Variable S : schema.
+  Variable inst : vertex -> string -> Prop.
+  Variable re_match : string -> string -> option bool.
+  Variable g : graph.
+  Variable args : list (string * fv).
+  Hypothesis Hconf : conforms S inst g.
+
+  Lemma enter_typed vs ss imp a tov x :
+    inst x (endpoint_type tov) -> enter re_match g args vs ss imp a tov (Some x) = true -> inst x (v_type tov).
+  Proof.
+    unfold enter, endpoint_type. destruct (v_from tov) as [from|]; [|auto].
+    intros _ H. apply andb_prop in H. destruct H as (H & _). eapply (cf_coerce _ _ _ Hconf). exact H.
+  Qed.
+
+  (* every vertex listed by the recursion is an instance of the edge's destination D *)
+  Lemma rec_from_typed origin_ty rfrom D coerce_to edge ps d0 dr :
+    subtype_of S origin_ty D = true ->
+    find_edge S origin_ty edge = Some d0 -> ed_target d0 = D ->
+    rfrom = match coerce_to with Some x => x | None => D end ->
+    find_edge S rfrom edge = Some dr -> ed_target dr = D ->
+    forall (k : nat) (first : bool) (v : vertex), (if first then inst v origin_ty else inst v D) ->
+    forall x, In x (rec_from g k first origin_ty rfrom D coerce_to edge ps v) -> inst x D.
+  Proof.
+    intros Hsub E0 T0 Erf Er Tr. induction k as [|k IH]; intros first v Hv x Hx; cbn [rec_from] in Hx.
+    - destruct Hx as [<-|[]]. destruct first; [eapply (cf_up _ _ _ Hconf); eassumption|assumption].
+    - destruct Hx as [<-|Hx]; [destruct first; [eapply (cf_up _ _ _ Hconf); eassumption|assumption]|].
+      destruct (first || match coerce_to with Some to => g_coerce g D to v | None => true end) eqn:Eg; [|destruct Hx].
+      apply in_flat_map in Hx. destruct Hx as (n & Hn & Hx). apply (IH false n); [|exact Hx]. cbn.
+      destruct first.
+      + rewrite <- T0. eapply (cf_nbrs _ _ _ Hconf); eassumption.
+      + cbn in Eg. rewrite <- Tr. eapply (cf_nbrs _ _ _ Hconf); [exact Er| |exact Hn].
+        rewrite Erf. destruct coerce_to as [to|]; [|exact Hv]. eapply (cf_coerce _ _ _ Hconf). exact Eg.
+  Qed.
+
+  Lemma asg_typed_set_av vs a vid c vtx :
+    asg_typed inst vs a -> find_vertex vs vid = Some vtx ->
+    (forall x, c = Some x -> inst x (v_type vtx)) -> asg_typed inst vs (set_av a vid c).
+  Proof.
+    intros Ha Ev Hc vid' v vtx' Hin Ev'. unfold set_av in Hin. cbn [a_v] in Hin. apply in_app_or in Hin.
+    destruct Hin as [Hin|[Hin|[]]]; [eapply Ha; eassumption|]. injection Hin as <- ->.
+    rewrite Ev in Ev'. injection Ev' as <-. now apply Hc.
+  Qed.
+
+  Lemma step_edge_typed vs ss imp e a :
+    typed_edge S vs e = true -> asg_typed inst vs a ->
+    Forall (asg_typed inst vs) (step_edge re_match g args vs ss imp e a).
+  Proof.
+    intros Ht Ha. unfold step_edge. unfold typed_edge in Ht.
+    destruct (find_vertex vs (e_from e)) as [fromv|] eqn:Ef; [|constructor].
+    destruct (find_vertex vs (e_to e)) as [tov|] eqn:Et; [|constructor].
+    bsplit. destruct (find_edge S (v_type fromv) (e_name e)) as [d|] eqn:Ed; [|discriminate]. bsplit.
+    match goal with Hq : String.eqb (endpoint_type tov) (ed_target d) = true |- _ => apply String.eqb_eq in Hq; rename Hq into HD end.
+    apply Forall_forall. intros a' Ha'. apply in_flat_map in Ha'. destruct Ha' as (c & Hc & Ha').
+    destruct (enter re_match g args vs ss imp a tov c) eqn:Ee; [|destruct Ha']. destruct Ha' as [<-|[]].
+    eapply asg_typed_set_av; [exact Ha|exact Et|]. intros x ->.
+    eapply enter_typed; [|exact Ee]. rewrite HD.
+    (* where do candidates come from? *)
+    destruct (lookup_N (e_from e) (a_v a)) as [[v|]|] eqn:El; [|destruct Hc as [Hc|[]]; discriminate|destruct Hc as [Hc|[]]; discriminate].
+    assert (Hv : inst v (v_type fromv)) by (eapply Ha; [apply lookup_N_in; exact El|exact Ef]).
+    destruct (e_rec e) as [r|].
+    - apply in_map_iff in Hc. destruct Hc as (y & [= ->] & Hy).
+      match goal with Hr : typed_recursion _ _ _ _ _ _ = true |- _ => unfold typed_recursion in Hr end. bsplit.
+      fold (endpoint_type tov) in Hy. rewrite HD in Hy.
+      destruct (r_coerce r) as [xco|] eqn:Eco.
+      + bsplit. destruct (find_edge S xco (e_name e)) as [dx|] eqn:Edx; [|discriminate]. bsplit.
+        match goal with Hq : String.eqb (ed_target dx) (ed_target d) = true |- _ => apply String.eqb_eq in Hq; rename Hq into HT end.
+        eapply (rec_from_typed (v_type fromv) xco (ed_target d) (Some xco) (e_name e) (e_params e) d dx);
+          try eassumption; try reflexivity. exact Hv.
+      + bsplit. rewrite HD in *. destruct (find_edge S (ed_target d) (e_name e)) as [dd|] eqn:Edd; [|discriminate]. bsplit.
+        match goal with Hq : String.eqb (ed_target dd) (ed_target d) = true |- _ => apply String.eqb_eq in Hq; rename Hq into HT end.
+        eapply (rec_from_typed (v_type fromv) (ed_target d) (ed_target d) None (e_name e) (e_params e) d dd);
+          try eassumption; try reflexivity. exact Hv.
+    - assert (Hn : In x (g_nbrs g (v_type fromv) (e_name e) (e_params e) v)).
+      { destruct (g_nbrs g (v_type fromv) (e_name e) (e_params e) v) as [|n ns].
+        - destruct (e_optional e); [destruct Hc as [Hc|[]]; discriminate|destruct Hc].
+        - apply in_map_iff in Hc. destruct Hc as (y & [= ->] & Hy). exact Hy. }
+      eapply (cf_nbrs _ _ _ Hconf); eassumption.
+  Qed.
+
+  Lemma sem_steps_typed vs ss imp todo : forall rows,
+    edges_only todo = true -> typed_steps S vs todo = true -> Forall (asg_typed inst vs) rows ->
+    Forall (asg_typed inst vs) (sem_steps re_match g args vs ss imp todo rows).
+  Proof.
+    induction todo as [|[e|h sub] todo IH]; intros rows Ho Ht Hr; cbn [sem_steps edges_only typed_steps] in *;
+      [assumption| |discriminate].
+    apply andb_prop in Ho. destruct Ho as (_ & Ho). apply andb_prop in Ht. destruct Ht as (Ht1 & Ht2).
+    apply IH; [assumption|assumption|]. apply Forall_forall. intros a' Ha'. apply in_flat_map in Ha'.
+    destruct Ha' as (a & Ha & Ha'). rewrite Forall_forall in Hr.
+    pose proof (step_edge_typed vs ss imp e a Ht1 (Hr _ Ha)) as HF. rewrite Forall_forall in HF. auto.
+  Qed.
+
+  (* Transport to Exec.v: after ANY prefix of the edge steps of a fold-free, typed root component,
+     every vertex recorded in every context is an instance of its IR vertex' type.  These are the
+     vertices that `activate_vertex` / `move_to_vertex` make active for the next neighbour call, for
+     tag computations and for the output calls. *)
+  Theorem recorded_vertices_typed_partial :
+    ty_indep g ->
+    forall q d root vs ss outs rv pre post cs0 cs,
+      q_comp q = mkComp root vs ss outs ->
+      find_decl (q_root_name q) (s_entries S) = Some d ->
+      typed_query S q = true ->
+      edges_only ss = true -> ss = pre ++ post ->
+      find_vertex vs root = Some rv ->
+      enter_vertex re_match g args vs ss rv
+        (map (fun v => ctx_new (Some v)) (g_starts g (q_root_name q) (q_root_params q))) = Ok cs0 ->
+      exec_steps re_match g args vs ss pre cs0 = Ok cs ->
+      Forall (ctx_typed inst vs) cs.
+  Proof.
+    intros Hind q d root vs ss outs rv pre post cs0 cs Eq Ed Ht Ho Ess Erv He Hx.
+    destruct (find_decl_in _ _ _ Ed) as (Hd & Hname).
+    unfold typed_query in Ht. rewrite Ed, Eq in Ht. bsplit.
+    match goal with Hc : typed_comp _ _ _ = true |- _ => rewrite typed_comp_eq in Hc; rewrite Erv in Hc end. bsplit.
+    match goal with Hq : String.eqb (endpoint_type rv) (ed_target d) = true |- _ => apply String.eqb_eq in Hq; rename Hq into HD end.
+    set (starts := g_starts g (q_root_name q) (q_root_params q)) in *.
+    assert (Hcl : Forall (clean []) (map (fun v => ctx_new (Some v)) starts)).
+    { apply Forall_forall. intros y Hy. apply in_map_iff in Hy. destruct Hy as (v & <- & _). repeat split; constructor. }
+    destruct (enter_vertex_spec re_match g args vs ss [] rv _ _ Hcl He) as (-> & Hcl0).
+    subst ss.
+    destruct (exec_steps_edges_spec re_match g args Hind vs (pre ++ post) [] pre _ _ (edges_only_app _ _ Ho) Hcl0 Hx) as (E & _ & _).
+    assert (Hrows : Forall (asg_typed inst vs) (sem_steps re_match g args vs (pre ++ post) [] pre
+              (map asg_of (map (recorded (v_vid rv))
+                 (filter (fun c => enter re_match g args vs (pre ++ post) [] (asg_of c) rv (active c))
+                         (map (fun v => ctx_new (Some v)) starts)))))).
+    { apply sem_steps_typed; [eapply edges_only_app; eassumption|eapply typed_steps_app; eassumption|].
+      apply Forall_forall. intros a Ha. apply in_map_iff in Ha. destruct Ha as (c1 & <- & Hc1).
+      apply in_map_iff in Hc1. destruct Hc1 as (c & <- & Hc). apply filter_In in Hc. destruct Hc as (Hc & Hen).
+      apply in_map_iff in Hc. destruct Hc as (s & <- & Hs). rewrite asg_of_recorded.
+      pose proof (find_vertex_vid _ _ _ Erv) as Hvid. rewrite Hvid.
+      eapply asg_typed_set_av; [|exact Erv|].
+      - intros vid v vtx Hin. rewrite asg_of_eq in Hin. destruct Hin.
+      - cbn [active ctx_new]. intros x [= <-]. cbn [active ctx_new] in Hen.
+        eapply enter_typed; [|exact Hen]. rewrite HD. eapply (cf_starts _ _ _ Hconf); [exact Hd|].
+        rewrite Hname. exact Hs. }
+    rewrite <- E in Hrows. apply Forall_forall. intros c Hc. rewrite Forall_forall in Hrows.
+    specialize (Hrows (asg_of c) (in_map asg_of _ _ Hc)).
+    intros vid v vtx Hin. apply Hrows. now rewrite a_v_asg_of.
+  Qed.
+
+  (* ... in particular the contexts handed to the neighbour call of the next edge: every non-null
+     active vertex is an instance of the type the call names (the origin vertex' type) *)
+  Corollary neighbor_call_active_vertices_typed_partial :
+    ty_indep g ->
+    forall q d root vs ss outs rv pre e post from cs0 cs cs1,
+      q_comp q = mkComp root vs ss outs ->
+      find_decl (q_root_name q) (s_entries S) = Some d ->
+      typed_query S q = true ->
+      edges_only ss = true -> ss = pre ++ SEdge e :: post ->
+      find_vertex vs root = Some rv ->
+      find_vertex vs (e_from e) = Some from ->
+      enter_vertex re_match g args vs ss rv
+        (map (fun v => ctx_new (Some v)) (g_starts g (q_root_name q) (q_root_params q))) = Ok cs0 ->
+      exec_steps re_match g args vs ss pre cs0 = Ok cs ->
+      mapM (fun c => activate_vertex c (e_from e)) cs = Ok cs1 ->
+      Forall (fun c => forall v, active c = Some v -> inst v (v_type from)) cs1.
+  Proof.
+    intros Hind q d root vs ss outs rv pre e post from cs0 cs cs1 Eq Ed Ht Ho Ess Erv Ef He Hx Ha.
+    pose proof (recorded_vertices_typed_partial Hind q d root vs ss outs rv pre (SEdge e :: post) cs0 cs
+                  Eq Ed Ht Ho Ess Erv He Hx) as HF.
+    apply mapM_ok in Ha. clear - Ha HF Ef. induction Ha as [|c y cs cs1 Hy _ IH]; [constructor|].
+    inversion HF as [|? ? Hc HF']; subst. constructor; [|now apply IH].
+    apply activate_vertex_ok in Hy. subst y. intros v Hv. destruct c as [a vsx vals susp fcs fvs pb imp].
+    cbn in Hv. unfold act_at in Hv. cbn [vertices] in Hv.
+    destruct (lookup_N (e_from e) vsx) as [ov|] eqn:El; [|discriminate]. subst ov.
+    eapply Hc; [|exact Ef]. cbn [vertices]. apply lookup_N_in. exact El.
+  Qed.
+End Dynamic.
+
+(* ================= finite datasets conform ================= *)
+Lemma lookup_str_in_key {A} k (l : list (string * A)) a : lookup_str k l = Some a -> In (k, a) l.
+Proof.
+  induction l as [|[k' a'] l IH]; cbn; [discriminate|]. destruct (String.eqb_spec k k') as [->|_].
+  - intros [= ->]. now left.
+  - intros H. right. auto.
+Qed.
+
+Lemma mem_str_in s l : mem_str s l = true -> In s l.
+Proof.
+  unfold mem_str. intros H. apply existsb_exists in H. destruct H as (x & Hx & E).
+  apply String.eqb_eq in E. now subst.
+Qed.
+
+Theorem dataset_conforms_sound S d :
+  dataset_conforms S d = true -> conforms S (inst_of d) (graph_of_dataset d).
+Proof.
+  intros H. unfold dataset_conforms in H. bsplit.
+  match goal with Hu : forallb _ (s_subs S) = true |- _ => rename Hu into Hup end.
+  match goal with Hs : forallb _ (s_entries S) = true |- _ => rename Hs into Hst end.
+  match goal with Hn : forallb _ (s_edges S) = true |- _ => rename Hn into Hnb end.
+  rewrite forallb_forall in Hup, Hst, Hnb. constructor.
+  - (* upward closure *)
+    intros v t t' Hi Hs. unfold subtype_of in Hs. destruct (lookup_str t' (s_subs S)) as [l|] eqn:El; [|discriminate].
+    apply lookup_str_in_key in El. specialize (Hup _ El). cbn [fst snd] in Hup. rewrite forallb_forall in Hup.
+    specialize (Hup _ (mem_str_in _ _ Hs)).
+    unfold inst_of, in_type, ds_coerce in *. destruct (lookup_str t (d_subs d)) as [l0|]; [|discriminate].
+    rewrite forallb_forall in Hup. specialize (Hup _ (mem_str_in _ _ Hi)). exact Hup.
+  - (* starting vertices *)
+    intros en ps v Hen Hv. specialize (Hst _ Hen). cbn [graph_of_dataset g_starts] in Hv. unfold ds_starts in Hv.
+    destruct (lookup_str (ed_name en) (d_starts d)) as [ns|]; [|destruct Hv].
+    apply filter_In in Hv. destruct Hv as (Hv & _). rewrite forallb_forall in Hst. exact (Hst _ Hv).
+  - (* neighbours *)
+    intros t e decl ps v n Ef Hi Hn. unfold find_edge in Ef.
+    destruct (lookup_str t (s_edges S)) as [es|] eqn:Ees; [|discriminate].
+    apply lookup_str_in_key in Ees. specialize (Hnb _ Ees). cbn [fst snd] in Hnb. rewrite forallb_forall in Hnb.
+    destruct (find_decl_in _ _ _ Ef) as (Hdecl & Hname). specialize (Hnb _ Hdecl). rewrite forallb_forall in Hnb.
+    cbn [graph_of_dataset g_nbrs] in Hn. unfold ds_nbrs in Hn.
+    destruct (lookup_N v (d_edges d)) as [em|] eqn:Ev; [|destruct Hn].
+    apply lookup_N_in in Ev. specialize (Hnb _ Ev). cbn [fst snd] in Hnb.
+    unfold inst_of in Hi. rewrite Hi in Hnb. rewrite Hname in Hnb.
+    unfold vertex in *.
+    destruct (lookup_str e em) as [ns|] eqn:Ens; [|destruct Hn].
+    apply filter_In in Hn. destruct Hn as (Hn & _). rewrite forallb_forall in Hnb. exact (Hnb _ Hn).
+  - (* coercion *)
+    intros from to v Hc. exact Hc.
+Qed.
